@@ -207,15 +207,18 @@ def check_case(case):
             after_state = norm_state(copy.deepcopy(im2._instances[iid]["instance"].session_state))
             after_res = json.loads(c2.get("/%s/session-results" % iid).data)
         after_flat = json.loads(c2.get("/%s/flat-session-results" % iid).data)
-        d = first_diff(before_state, after_state)
+        for field in before_state:
+            d = first_diff(before_state[field], (after_state or {}).get(field), "/" + field)
+            if d:
+                vs.append(Violation("state-differs:%s:%s:%s" % (mode, case["adapter"], field), "session state differs after restore (%s path): %s; steps %r start=%s dt=%s"
+                                    % (case["path"], d, steps, case["start"], case["dt"])))
+        d = first_diff(before_res, after_res, "/session-results")
         if d:
-            field = d.split(":")[0].strip("/").split("/")[0]
-            vs.append(Violation("state-differs:%s:%s:%s" % (mode, case["adapter"], field), "session state differs after restore (%s path): %s; steps %r start=%s dt=%s"
-                                % (case["path"], d, steps, case["start"], case["dt"])))
-            return info, vs
-        d = first_diff(before_res, after_res) or first_diff(before_flat, after_flat)
+            vs.append(Violation("results-differ:%s:%s:session-results" % (mode, case["adapter"]), "session results differ after restore: %s; start=%s dt=%s steps %r" % (d, case["start"], case["dt"], steps)))
+        d = first_diff(before_flat, after_flat, "/flat-session-results")
         if d:
-            vs.append(Violation("results-differ:%s:%s" % (mode, case["adapter"]), "session results differ after restore: %s" % d))
+            vs.append(Violation("results-differ:%s:%s:flat-session-results" % (mode, case["adapter"]), "flat session results differ after restore: %s; start=%s dt=%s steps %r" % (d, case["start"], case["dt"], steps)))
+        if vs:
             return info, vs
         # the restored session continues: next step answers 200 with and without body
         for body in (None, {"settings": {}}):
